@@ -558,3 +558,35 @@ CHECKS["C14"] = dict(
 )
 ENGINES.append(dict(name="rpc-lab", path="checks/c14_rpc.cpp", serves_properties=["C14"],
                     kind_free_text="in-process RPC loop over byte pipes; exhaustive call sequences and mutated requests"))
+
+# ----------------------------------------------------------------------------------------------- C09
+NC09 = 16
+c09_bins = [B("c09_%02d" % i, ["checks/c09_fungible.cpp", "harness/support.cpp"], "gcc", defs=["SHARD=%d" % i, "NSHARDS=%d" % NC09],
+              ldflags=WRAP) for i in range(NC09)]
+
+
+def jobs_c09(tier):
+    return [job(b, "--tier", tier) for b in c09_bins]
+
+
+CHECKS["C09"] = dict(
+    engine="fungible-lab", level="exploration", jobs=jobs_c09,
+    level_text="IsFungible<A,B> is evaluated at compile time for every ordered pair of an 80-type universe (scalars, vectors / "
+               "std::arrays / C arrays / tuples / pairs over integral, float, string, wrapper and structure elements, maps, "
+               "logical buffers with u8/i8/i32/size_t size members as structures and as value wrappers, value wrappers incl. "
+               "nested, internally and externally annotated structures, tables with fungible entries, Optional / Result / "
+               "Variant): reflexivity, symmetry, agreement of Protocol<A>::Read/Write admission with the trait; for EVERY pair "
+               "the trait declares fungible, every value of A's domain is written as A and - when docs/format.md says the "
+               "bytes are a B (element counts fit) - must be read as B to the corresponding value, consume everything and "
+               "re-encode to the same bytes; a true pair whose A encodings are not B encodings for a reason other than an "
+               "element count is a violation; 18 documented pairs and function signatures must evaluate to true",
+    level_note="the universe is fixed in checks/c09_fungible.cpp (a type list, all ordered pairs by template expansion); a pair "
+               "for which the trait itself is ill-formed makes the binary fail to build (check broken, exit 2)",
+    technique="bounded exhaustive enumeration (ordered type pairs x values) against a reference codec",
+    rule="one case per ordered pair (symmetry) + one per (fungible pair, value of A); non-trivial = more than one byte on the wire; distinct by case id",
+    assumptions=R_ASSUME,
+    bounds=dict(quick="80 types, 6400 ordered pairs, <= 60 values per A", thorough="same"),
+    floor=dict(evaluations=dict(quick=8000, thorough=8000)),
+)
+ENGINES.append(dict(name="fungible-lab", path="checks/c09_fungible.cpp", serves_properties=["C09"],
+                    kind_free_text="compile-time trait matrix over all ordered type pairs + wire-compatibility runs for every true pair"))
